@@ -176,6 +176,32 @@ Proof.
   exists [Connect; Greeting 0; User 0 [97]; UserBegin 0; Drop 0; LogoutRuns 0]. vm_compute. reflexivity.
 Qed.
 
+(* ---- finding F24 (known_findings.json; harness key c10-quit-behind-unwritten-replies-connection-fails)
+   The theorems above quantify over event lists in which every session end IS an event: `Quit i` stands for "QUIT
+   was dispatched AND the dispatcher left `await response_queue.join()` and ran its finally block".  On the current
+   source that second half fails when the control connection is lost while a reply queued BEFORE QUIT's is still
+   unwritten: response_writer dies at the first reply it cannot write, nobody acknowledges the replies behind it,
+   join() never returns.  The history the implementation really performs is then the one WITHOUT the `Quit i` event
+   (and without any later event of session i, until ServerClose).  The full statement "after every peer is gone the
+   whole limit is available again" is refuted by that history: the peer of session 0 is gone, yet session 0 is not
+   Dead, the server counter stays at 0 of 1 and the next client is told 421.  (Witness on the real code:
+   evidence/replay/C10-witness-F24-*.json; the theorems above are the carved part: they hold for every history in
+   which each dispatched QUIT / refused greeting is followed by its end event, which the harness checks per history.) *)
+Theorem C10_every_end_reaches_finally_refuted_F24 :
+  let c := gen_cfg (Some 1) [alice] true in
+  let st := reach c [Connect; Greeting 0; User 0 [97]; Other 0 (* NOOP; QUIT dispatched: no event follows *)] in
+  ~ all_gone st
+  /\ c_value (st_srv st) = Some 0
+  /\ map fst (trace c st [Connect; Greeting 1]) = [[]; [(1%nat, 421)]].
+Proof.
+  cbv zeta. split; [|split].
+  - intro Hgone. unfold all_gone in Hgone. vm_compute in Hgone.
+    inversion Hgone as [|s0 rest Hdead Hrest]. discriminate Hdead.
+  - vm_compute. reflexivity.
+  - vm_compute. reflexivity.
+Qed.
+Print Assumptions C10_every_end_reaches_finally_refuted_F24.
+
 (* non-vacuity: a configuration satisfying the hypotheses, a history that reaches a 421 and a 530,
    and re-USER as the same user at its limit succeeding *)
 Example C10_nonvacuous :
